@@ -34,7 +34,19 @@ RULE = (
     "block-diagonal and exactly low-rank data, one mode of size 21..30; (5) stoptol 0 or log-uniform in 1e-12..1, "
     "printitn in {-5,-1,0,1,2,3,7,1000}, data magnitude 1e-6..1e6.  Instances where the alternating iteration itself breaks "
     "down (a singular least-squares step, or a component annihilated up to rounding - diagnosed in NumPy from the recorded "
-    "factor matrices) are counted as skipped, as is sparse all-singleton data with 'nvecs' (rejected by design)."
+    "factor matrices) are counted as skipped, as is sparse all-singleton data with 'nvecs' (rejected by design).  "
+    "Round 3 classes: (6) Tucker data whose factor matrices are generic / exactly orthonormal / unit-length but not orthogonal / "
+    "orthonormal, unit-length or identity up to a relative perturbation 1e-10..1e-5 / identity columns (per tensor or mixed per "
+    "mode), core held dense or sparse; Kruskal parts of sum-tensor data with unit-length, nearly unit-length or orthonormal "
+    "columns, an optional Tucker part; data magnitude also 1e-9, 1e-10, 1e-12, 1e+9; given guesses of magnitude 1e-9, 1e-12, 1e+9 "
+    "or 10^k per column; (7) about one case in 30 is a larger problem: 5..6 modes, rank 4..8, a mode of 40..60, or 1e4..4e4 cells "
+    "(as many stored nonzeros); (8) column norms 10^-18..10^18 with compensating weights (Kruskal part), 10^-9..10^9 with "
+    "compensating core (Tucker factors); (9) cell live-objects: data and guess objects stay alive over 3..4 calls and are edited "
+    "in place between them (item assignment on tensor / sptensor / core / factor entries / weights, ktensor.normalize / arrange "
+    "/ redistribute): every call is judged against the state the objects have then and against a call on independent objects "
+    "rebuilt from copies, earlier results must stay bit-identical, writing into returned objects must reach neither data nor "
+    "guess nor earlier results; (10) stoptol also 2.5 and 1e300 (the run ends at the first test it makes), maxiters 1, "
+    "printitn beyond maxiters -- all labelled."
 )
 ASSUMPTIONS = [
     "bulk numeric content (factors, noise, masks, given guesses) is expanded by np.random.default_rng from integer seeds "
@@ -118,12 +130,49 @@ def _shape_for_rank(draw, tier, R, N):
     return shape
 
 
-def _case_strategy(holder):
+@st.composite
+def _big_problem(draw, tier):
+    """(R, shape) of one of the larger problems (class 7: sizes above the small ones every other case has): many modes
+    (5..6), a high rank (4..8), one long mode (40..60), or 1e4..4e4 cells in three modes."""
+    kind = ["many-modes", "high-rank", "long-mode", "many-cells"][draw(st.integers(0, 10**6)) % 4]
+    if kind == "many-cells":  # 1e4 .. 4e4 cells (as many stored nonzeros in a sparse holder: above block sizes of 1e4 / 16384)
+        R = draw(st.integers(2, 4))
+        shape = [draw(st.integers(22, 34)) for _ in range(3)]
+        cap = 40000
+    elif kind == "many-modes":
+        R = draw(st.integers(1, 3))
+        N = draw(st.sampled_from([5, 6]))
+        shape = [draw(st.integers(max(R, 2), 4)) for _ in range(N)]
+        cap = 5000
+    elif kind == "high-rank":
+        R = draw(st.integers(4, 8))
+        N = draw(st.sampled_from([3, 3, 4]))
+        shape = [draw(st.integers(R, R + 3)) for _ in range(N)]
+        cap = 20000
+    else:
+        R = draw(st.integers(2, 5))
+        N = draw(st.sampled_from([3, 3, 4]))
+        shape = [draw(st.integers(max(R, 2), R + 2)) for _ in range(N)]
+        shape[draw(st.integers(0, N - 1))] = draw(st.integers(40, 60))
+        cap = 30000
+    while ref.prod(shape) > cap and any(max(R, 2) < n <= 20 for n in shape):
+        i = max((i for i in range(len(shape)) if max(R, 2) < shape[i] <= 20), key=lambda i: shape[i])
+        shape[i] -= 1
+    return R, shape, kind
+
+
+def _case_strategy(holder, big_one_in=30):
     @st.composite
     def strat(draw, tier):
-        R = draw(st.sampled_from([1, 2, 2, 3, 3]))
-        N = draw(st.sampled_from([2, 3, 3, 3, 4] if tier == "quick" else [2, 3, 3, 4, 4, 5]))
-        shape = draw(_shape_for_rank(tier, R, N))
+        big = draw(st.integers(0, big_one_in - 1)) == 0
+        if big:
+            R, shape, bigkind = draw(_big_problem(tier))
+            N = len(shape)
+        else:
+            bigkind = None
+            R = draw(st.sampled_from([1, 2, 2, 3, 3]))
+            N = draw(st.sampled_from([2, 3, 3, 3, 4] if tier == "quick" else [2, 3, 3, 4, 4, 5]))
+            shape = draw(_shape_for_rank(tier, R, N))
         rtrue = draw(st.sampled_from([R, R, R + 1, max(1, R - 1)]))
         if rtrue < R:
             noise = draw(st.sampled_from([1e-2, 0.1, 1.0]))
@@ -133,6 +182,8 @@ def _case_strategy(holder):
                  data_seed=draw(st.integers(0, 10**6)),
                  style=draw(st.sampled_from(["normal", "normal", "uniform", "block"])),
                  scale=draw(st.sampled_from(H.SCALES)))
+        if bigkind:
+            c["big"] = bigkind
         if holder in ("tensor", "sptensor"):
             # integer-valued data held in an integer dtype (class 2); float32 is left out: the 1e-10-level bounds of this
             # module are float64 rounding bounds
@@ -148,6 +199,12 @@ def _case_strategy(holder):
             c["sp_state"] = draw(st.sampled_from(["plain", "plain", "explicit-zeros", "np-shape", "from-tensor", "halved-doubled"]))
         if holder == "sumtensor":
             c["sum_sparse"] = draw(st.booleans())
+            c["sum_tucker"] = draw(st.integers(0, 3)) == 0
+            c["kstyle"] = draw(st.sampled_from(H.KSTYLES))
+        if holder in ("ttensor", "sumtensor"):
+            c["fstyle"] = draw(st.sampled_from(H.FSTYLES))
+        if holder == "ttensor":
+            c["core_holder"] = draw(st.sampled_from(["dense", "dense", "dense", "sparse"]))
         structured = list(H.STRUCTURED_INITS) + ["result"]
         if holder == "sumtensor":  # nvecs is documented as unsupported for sum tensors
             inits = ["normal", "uniform", "random"] * 2 + structured
@@ -156,6 +213,7 @@ def _case_strategy(holder):
         c["init"] = draw(st.sampled_from(inits))
         c["init_seed"] = draw(st.integers(0, 10**6))
         c["init_weights"] = draw(st.sampled_from(["unit", "unit", "unit", "nonunit"]))
+        c["init_scale"] = draw(st.sampled_from(H.GUESS_SCALES))
         c["np_seed"] = draw(st.integers(0, 2**31 - 1))
         c["dimorder"] = draw(st.one_of(st.none(), st.permutations(range(N)).map(list), st.permutations(range(N)).map(list)))
         if draw(st.booleans()):
@@ -164,7 +222,7 @@ def _case_strategy(holder):
             k = draw(st.integers(1, N))
             c["optdims"] = list(draw(st.permutations(range(N))))[:k]
         c["form"] = draw(st.sampled_from(["list", "array", "tuple"]))
-        c["maxiters"] = draw(st.integers(1, 6 if tier == "quick" else 8))
+        c["maxiters"] = draw(st.integers(1, 6 if tier == "quick" else 8)) if not big else draw(st.integers(1, 4))
         c["stoptol"] = draw(H.STOPTOLS)
         c["fixsigns"] = draw(st.booleans())
         c["printitn"] = draw(H.PRINTITNS)
@@ -363,7 +421,21 @@ def _body_inner(ctx, case, env):
               f"noise-{case['noise']}", "has-singleton" if 1 in shape else "no-singleton",
               "distinct-sizes" if len(set(shape)) > 1 else "cubical", f"printitn-{max(min(printitn, 1), -1)}",
               "long-mode" if max(shape) > 20 else "short-modes", "dtype-" + case.get("dtype", "float64"), "scale-%g" % float(case.get("scale", 1.0)), "style-" + case.get("style", "normal"),
-              "stoptol-0" if stoptol == 0 else ("stoptol<1e-6" if stoptol < 1e-6 else "stoptol>=1e-6"))
+              "stoptol-0" if stoptol == 0 else ("stoptol<1e-6" if stoptol < 1e-6 else ("stoptol>=1e-6" if stoptol < 1 else
+                                                                                         "stoptol>=1")),
+              "problem-" + case.get("big", "small"), "maxiters-1" if maxiters == 1 else "maxiters>1",
+              "printitn>maxiters" if printitn > maxiters else "printitn<=maxiters",
+              "guess-scale-%s" % case.get("init_scale", 1.0))
+    if holder in ("ttensor", "sumtensor"):
+        ctx.label("factors-" + case.get("fstyle", "generic"))
+    if holder == "ttensor":
+        ctx.label("core-" + case.get("core_holder", "dense"))
+        if all(abs(float(np.linalg.norm(f[:, j])) - 1.0) <= 1e-8 for f in X.factor_matrices for j in range(f.shape[1])):
+            g = max(float(np.max(np.abs(f.T @ f - np.eye(f.shape[1])))) for f in X.factor_matrices)
+            ctx.label("tucker-factors-all-unit-norm:" + ("orthonormal" if g <= 1e-12 else ("near-orthonormal" if g <= 1e-4 else
+                                                                                          "not-orthogonal")))
+    if holder == "sumtensor":
+        ctx.label("kruskal-part-" + case.get("kstyle", "generic"), "with-tucker-part" if case.get("sum_tucker") else "no-tucker-part")
     if holder == "tensor":
         ctx.label("prov-grown-or-C-order" if not np.asarray(X.data).flags["F_CONTIGUOUS"] else "prov-F-order")
     if isinstance(init, ttb.ktensor):
@@ -612,3 +684,223 @@ def _enum_orders(tier):
 @cell("C09/cp_als/enumerated-orders", enum=_enum_orders, shards=(8, 16))
 def cp_als_enumerated(ctx, case):
     _body(ctx, case)
+
+
+# --------------------------------------------------------------------------
+# class 9: the same data / guess objects kept alive across calls and edited between calls
+# --------------------------------------------------------------------------
+
+
+def _rebuild(x):
+    """an independent object in the same state, built by the public constructors from copies of the arrays"""
+    if isinstance(x, ttb.tensor):
+        return ttb.tensor(np.array(x.data, order="F", copy=True), tuple(int(n) for n in x.shape))
+    if isinstance(x, ttb.sptensor):
+        if np.asarray(x.subs).size == 0:
+            return ttb.sptensor(shape=tuple(int(n) for n in x.shape))
+        return ttb.sptensor(np.array(x.subs, copy=True), np.array(x.vals, copy=True), tuple(int(n) for n in x.shape))
+    if isinstance(x, ttb.ktensor):
+        return ttb.ktensor([np.array(f, order="F", copy=True) for f in x.factor_matrices], np.array(x.weights, copy=True))
+    if isinstance(x, ttb.ttensor):
+        return ttb.ttensor(_rebuild(x.core), [np.array(f, order="F", copy=True) for f in x.factor_matrices])
+    if isinstance(x, ttb.sumtensor):
+        return ttb.sumtensor([_rebuild(p) for p in x.parts])
+    raise TypeError(type(x))
+
+
+def _edit_in_place(x, rng, mag, allow_ops=True):
+    """change the object through item assignment on it / on the arrays and tensors it is made of, or (Kruskal tensors) one of
+    the documented in-place operations.  Returns a label."""
+    if isinstance(x, ttb.tensor):
+        idx = tuple(int(rng.integers(0, n)) for n in x.shape)
+        x[idx] = float(np.asarray(x.data)[idx]) + float(rng.choice([-1.0, 1.0])) * mag * float(rng.uniform(0.5, 2.0))
+        return "tensor-item"
+    if isinstance(x, ttb.sptensor):
+        idx = tuple(int(rng.integers(0, n)) for n in x.shape)
+        if rng.uniform() < 0.25:
+            x[idx] = 0.0
+            return "sptensor-item-zero"
+        x[idx] = float(rng.choice([-1.0, 1.0])) * mag * float(rng.uniform(0.5, 2.0))
+        return "sptensor-item"
+    if isinstance(x, ttb.ktensor):
+        kind = int(rng.integers(0, 6 if allow_ops else 2))
+        R = int(np.asarray(x.weights).shape[0])
+        if kind == 0:
+            x.weights[int(rng.integers(0, R))] *= float(rng.choice([-0.5, 2.0, 3.0]))
+            return "ktensor-weight-item"
+        if kind == 1:
+            k = int(rng.integers(0, len(x.factor_matrices)))
+            f = x.factor_matrices[k]
+            i, r = int(rng.integers(0, f.shape[0])), int(rng.integers(0, f.shape[1]))
+            f[i, r] = f[i, r] + float(np.sqrt(np.mean(f * f))) * float(rng.uniform(0.5, 2.0))
+            return "ktensor-factor-item"
+        if kind == 2:
+            x.normalize()
+            return "ktensor-normalize"
+        if kind == 3:
+            x.normalize(sort=True)
+            return "ktensor-normalize-sort"
+        if kind == 4:
+            x.arrange()
+            return "ktensor-arrange"
+        x.redistribute(int(rng.integers(0, len(x.factor_matrices))))
+        return "ktensor-redistribute"
+    if isinstance(x, ttb.ttensor):
+        if rng.uniform() < 0.5:
+            cm = float(np.sqrt(H.sq(ref.den(x.core)) / max(1, ref.prod(x.core.shape))))
+            return "ttensor-core:" + _edit_in_place(x.core, rng, cm if cm > 0 else 1.0)
+        k = int(rng.integers(0, len(x.factor_matrices)))
+        f = x.factor_matrices[k]
+        i, r = int(rng.integers(0, f.shape[0])), int(rng.integers(0, f.shape[1]))
+        f[i, r] = f[i, r] + float(np.sqrt(np.mean(f * f))) * float(rng.uniform(0.5, 2.0))
+        return "ttensor-factor-item"
+    if isinstance(x, ttb.sumtensor):
+        p = x.parts[int(rng.integers(0, len(x.parts)))]
+        return "sum-part:" + _edit_in_place(p, rng, mag)
+    raise TypeError(type(x))
+
+
+@st.composite
+def _live_case(draw, tier):
+    holder = draw(st.sampled_from(["tensor", "sptensor", "ttensor", "sumtensor"]))
+    c = draw(_case_strategy(holder, big_one_in=40)(tier))
+    c["dtype"] = "float64"
+    if c.get("style") == "block":
+        c["style"] = "normal"
+    if c["noise"] < 1e-3:
+        c["noise"] = 1e-2
+    c["scale"] = draw(st.sampled_from([1.0, 1.0, 1e-10, 1e6]))
+    c["init"] = draw(st.sampled_from(["normal", "uniform", "normal", "random"]))
+    c["maxiters"] = draw(st.integers(1, 4))
+    c["stoptol"] = draw(st.sampled_from([0.0, 0.0, 1e-3]))
+    c["printitn"] = draw(st.sampled_from([0, 0, 1]))
+    c["edit_seed"] = draw(st.integers(0, 10**6))
+    c["n_edits"] = draw(st.integers(1, 3))
+    return c
+
+
+def _live_run(ctx, what, X, R, case, init):
+    with ctx.sut(what):
+        res, _ = _run(X, R, case, init, int(case["maxiters"]), float(case["stoptol"]), int(case["printitn"]))
+    return _unpack(ctx, res, what + "-")
+
+
+def _same_as_fresh(ctx, X, G, R, case, res, A, tag):
+    """the call on the long-lived (edited) objects gives what a call on independent objects in the same state gives"""
+    M = res[0]
+    resf = _live_run(ctx, tag + "-fresh-objects", _rebuild(X), R, case, _rebuild(G) if isinstance(G, ttb.ktensor) else G)
+    _model_ok(ctx, resf[0], A.shape, R, tag + "-fresh-")
+    S = _scale(float(np.sqrt(H.sq(A))), M)
+    ctx.check(H.sq(ref.den(M) - ref.den(resf[0])) <= 1e-18 * S, tag + "-same-model-as-on-independent-objects",
+              f"||M - M_fresh||^2 = {H.sq(ref.den(M) - ref.den(resf[0]))!r}, S = {S!r}")
+    fa, fb = res[2].get("fit"), resf[2].get("fit") if isinstance(resf[2], dict) else None
+    ctx.check(H.is_float(fa) and H.is_float(fb) and abs(float(fa) - float(fb)) <= 1e-9 * (1 + abs(float(fa))),
+              tag + "-same-fit-as-on-independent-objects", (fa, fb))
+    ctx.check(res[2].get("iters") == resf[2].get("iters"), tag + "-same-iteration-count-as-on-independent-objects",
+              (res[2].get("iters"), resf[2].get("iters")))
+
+
+def _live_judge(ctx, res, A, R, case, seq, is_sum, tag):
+    M, Minit, out = res
+    _model_ok(ctx, M, A.shape, R, tag)
+    _check_normal_form(ctx, M, tag)
+    _check_reported(ctx, out, A, M, is_sum, tag)
+    _check_stationary(ctx, M, A, seq[-1], tag)
+    ctx.require(isinstance(Minit, ttb.ktensor), tag + "returned-guess-is-ktensor", type(Minit).__name__)
+
+
+def _live_inner(ctx, case, env):
+    shape = [int(s) for s in case["shape"]]
+    N, R = len(shape), int(case["R"])
+    is_sum = case["holder"] == "sumtensor"
+    X, A = H.build_data(case)
+    if H.unfolding_margin(A, R) < 1e-6:
+        ctx.skip("unfolding-rank-below-R")
+    G = H.build_init(case)
+    dimorder = case["dimorder"] if case["dimorder"] is not None else list(range(N))
+    optdims = case["optdims"] if case["optdims"] is not None else list(range(N))
+    seq = [d for d in dimorder if d in optdims]
+    ctx.nt = R >= 2 and N >= 3
+    ctx.label("holder-" + case["holder"], "init-" + case["init"], f"order{N}", "scale-%g" % float(case["scale"]),
+              "problem-" + case.get("big", "small"))
+    rng = np.random.default_rng([89, int(case["edit_seed"])])
+    env["states"] = [(A, G if isinstance(G, ttb.ktensor) else None)]
+
+    # ---- call 1 on the fresh objects
+    r1 = _live_run(ctx, "cp_als-first", X, R, case, G)
+    _live_judge(ctx, r1, A, R, case, seq, is_sum, "first-")
+    snap1 = (H.snapshot(r1[0]), H.snapshot(r1[1]))
+
+    # ---- the data object is edited in place, the same objects are used again
+    mag = float(np.sqrt(H.sq(A) / A.size))
+    for _ in range(int(case["n_edits"])):
+        with ctx.sut("in-place-edit-of-the-data"):
+            ctx.label("edit-" + _edit_in_place(X, rng, mag))
+    A2 = H.den(X)
+    ctx.label("edit-changed-the-data" if not np.array_equal(A, A2) else "edit-left-the-data-equal")
+    if not np.all(np.isfinite(A2)) or H.unfolding_margin(A2, R) < 1e-6:
+        ctx.skip("unfolding-rank-below-R")
+    env["states"].append((A2, G if isinstance(G, ttb.ktensor) else None))
+    snapX, snapG = H.snapshot(X), H.snapshot(G)
+    r2 = _live_run(ctx, "cp_als-after-editing-the-data", X, R, case, G)
+    _live_judge(ctx, r2, A2, R, case, seq, is_sum, "data-edited-")
+    _same_as_fresh(ctx, X, G, R, case, r2, A2, "data-edited")
+    ctx.check(H.snapshot(X) == snapX, "data-unchanged")
+    ctx.check(H.snapshot(G) == snapG, "guess-unchanged")
+    ctx.check((H.snapshot(r1[0]), H.snapshot(r1[1])) == snap1, "earlier-results-unchanged-by-editing-the-data-and-calling-again")
+    snap2 = (H.snapshot(r2[0]), H.snapshot(r2[1]))
+
+    # ---- the guess object is edited in place
+    r3 = r2
+    if isinstance(G, ttb.ktensor):
+        with ctx.sut("in-place-edit-of-the-guess"):
+            ctx.label("guess-edit-" + _edit_in_place(G, rng, 1.0))
+        ok = all(np.all(np.isfinite(f)) for f in G.factor_matrices)
+        ctx.check((H.snapshot(r1[1]), H.snapshot(r2[1])) == (snap1[1], snap2[1]), "returned-guesses-unchanged-by-editing-the-callers-guess")
+        if ok:
+            snapG = H.snapshot(G)
+            r3 = _live_run(ctx, "cp_als-after-editing-the-guess", X, R, case, G)
+            _live_judge(ctx, r3, A2, R, case, seq, is_sum, "guess-edited-")
+            ctx.check(H.snapshot(r3[1]) == snapG, "returned-guess-is-the-given-one")
+            _same_as_fresh(ctx, X, G, R, case, r3, A2, "guess-edited")
+            ctx.check(H.snapshot(G) == snapG, "guess-unchanged")
+    snap3 = (H.snapshot(r3[0]), H.snapshot(r3[1]))
+
+    # ---- the caller writes into everything the last call returned
+    if r3 is not r2:
+        for Kt in (r3[0], r3[1]):
+            Kt.weights[...] = -3.0
+            for f in Kt.factor_matrices:
+                f[...] = 7.0
+        ctx.check(H.snapshot(X) == snapX and H.snapshot(G) == snapG, "editing-the-results-leaves-data-and-guess-alone")
+        ctx.check((H.snapshot(r1[0]), H.snapshot(r1[1])) == snap1 and (H.snapshot(r2[0]), H.snapshot(r2[1])) == snap2,
+                  "editing-the-results-leaves-earlier-results-alone")
+    del snap3
+
+
+@cell("C09/cp_als/live-objects", strategy=_live_case, quick=500, thorough=8000, shards=(4, 16))
+def cp_als_live_objects(ctx, case):
+    """class 9: data and guess objects stay alive over several calls and are edited in place between them (item assignment,
+    documented in-place operations); every call is judged against the state the objects have at that time, against a call on
+    independent objects in the same state, and the results of earlier calls must stay what they were."""
+    env = {}
+    try:
+        _live_inner(ctx, case, env)
+    except Abort:
+        if not ctx.violations:
+            raise
+    if not ctx.violations:
+        return
+    # a failure on an instance where the alternating iteration itself breaks down is not judged (see _breakdown)
+    R = int(case["R"])
+    for A, G in env.get("states", []):
+        if G is None:
+            continue
+        try:
+            if _breakdown(H.make_tensor(A), A, R, case, _rebuild(G), int(case["maxiters"])):
+                ctx.violations.clear()
+                ctx.skip("als-breakdown:singular-or-annihilating-step")
+        except (Abort, Exception) as e:  # noqa: BLE001
+            from ..core import Skip
+            if isinstance(e, Skip):
+                raise
